@@ -527,6 +527,18 @@ Und kann so benutzt werden:
 	// a postfix "… N Mal." statement in the body: the body's tokens are parsed once per instantiation
 	add(unary("mal", "Das T kopie ist a.", "Speichere a in kopie 2 Mal.", "Gib kopie zurück."))
 
+	// a generic called from inside another generic's instantiation with a DIFFERENT binding of the same parameter
+	// name; the inner body names its T (the inner generic stays generic in the twin as well)
+	add(&c15Fam{key: "nested-other", nT: 1, applies: all,
+		entries: []c15Entry{{name: "f", params: c15P1, ret: "gibt eine Zahl zurück", args: "<a>", fwd: "a"}},
+		shared: func(n int) string {
+			return c15N(c15Fun("inner{n}", c15P1, c15RetT, []string{"Das T h ist a.", "Die T Liste hl ist eine leere T Liste.", "Speichere hl verkettet mit h in hl.", "Gib hl an der Stelle 1 zurück."}, "inner{n} <a>"), n)
+		},
+		generic: func(n int) string {
+			return c15N(c15Fun("f{n}", c15P1, "gibt eine Zahl zurück", []string{"Das T eigen ist a.", "Gib (inner{n} 5) plus (die Länge von (inner{n} \"xy\")) zurück."}, "f{n} <a>"), n)
+		},
+		calls: func(cx *c15Call) []string { return []string{c15Line("(" + cx.fn("f") + " " + cx.val(0, 0) + ")")} }})
+
 	f = add(unary("print", "Schreibe a auf eine Zeile.", "Gib a zurück."))
 	f.applies = func(ts []*c15Ty) bool { return ts[0].printable }
 	f.bad = []string{"Paar"}
